@@ -34,10 +34,43 @@ def run(ctx, db, tier):
     reuse(ctx, db)
     routing(ctx, db)
     buffer_storage(ctx, db)
+    move_keeps_block(ctx, db)
     atomic.check_roles(ctx, db, 'C19.orders', only_functions={'cocls::reusable_storage_mtsafe::alloc', 'cocls::reusable_storage_mtsafe::dealloc'}, floor=2)
     if ctx.cfg == 'assert':
         witness.positive(ctx, 'C19.concept', 'C19_pos.cpp', 'all seven policies model Storage; with_allocator coroutines compile for each; promise-level operator delete is the sized form')
         witness.negative(ctx, 'C19.concept-neg', 'C19_neg.cpp', 'a with_allocator coroutine whose first parameter is not the allocator must not compile (plain operator new is private)')
+
+
+def move_keeps_block(ctx, db):
+    """reusable_storage owns one block.  Move assignment that frees the target's block and then takes the source's is only right for two
+    different objects: assigned to itself (in-place compaction loops do that) the storage frees its own block and keeps the dangling pointer"""
+    rid = ctx.rule('C19.move-assign-keeps-own-block', 'PATHS', 'reusable_storage::operator=(reusable_storage&&): the target\'s block is released (operator delete) only on a path that '
+                   'established this != &other; every path that released it takes the source\'s block and capacity and leaves the source empty', floor=1)
+    T = _ptracer(db)
+    fs = [f for f in db.fns('cocls::reusable_storage::operator=') if any('&&' in p_['type'] for p_ in f['params'])]
+    if not fs:
+        raise Broken('reusable_storage::operator=(reusable_storage&&) not instantiated')
+    for f in fs[:1]:
+        src = 'param:' + f['params'][0]['name']
+        trs = [t for t in T.traces(f) if live(t)]
+        ctx.paths(rid, len(trs))
+        bad = None
+        for tr in trs:
+            dl = [i for i, it in enumerate(tr) if it.k == 'call' and norm(it.get('callee') or '') == 'operator delete']
+            if not dl:
+                continue
+            notself = False
+            for it in tr[:dl[0]]:
+                if it.k == 'branch':
+                    m_ = re.fullmatch(r'\((this|&\(param:\w+\)) (==|!=) (this|&\(param:\w+\))\)', it.path or '')
+                    if m_ and m_.group(1) != m_.group(3):
+                        notself = (m_.group(2) == '!=') == bool(it.val)
+            if not notself:
+                bad = bad or ('the target\'s block is freed on a path that did not rule out self-assignment: the storage keeps a pointer to the block it just released', tr)
+            took = [it for it in tr[dl[0]:] if it.k == 'write' and it.get('path') == 'this->_ptr']
+            if len(took) != 1:
+                bad = bad or ('after releasing its block the target does not take the source\'s block exactly once', tr)
+        ctx.ob(rid, f, f['key'], bad is None, 'release only when not self, then take over' + ('' if not bad else ' -- ' + bad[0]), desc=bad[0] if bad else None, trace=fmt_trace(bad[1]) if bad else None)
 
 
 def _ptracer(db):
